@@ -461,6 +461,21 @@ func (l *Linter) resolveFileInclusion(
 ) []ast.Statement {
 
 	var statements []ast.Statement
+	l.withFileInclusion(include, ctx, isRoot, func(included []ast.Statement) {
+		statements = l.resolveIncludeStatements(included, ctx, isRoot)
+	})
+	return statements
+}
+
+// withFileInclusion loads the module of an include statement and hands its statements to fn.
+// The module counts as being included until fn returns.
+func (l *Linter) withFileInclusion(
+	include *ast.IncludeStatement,
+	ctx *context.Context,
+	isRoot bool,
+	fn func(included []ast.Statement),
+) {
+
 	if slices.Contains(l.including, include.Module.Value) {
 		e := &LintError{
 			Severity: ERROR,
@@ -471,7 +486,7 @@ func (l *Linter) resolveFileInclusion(
 			),
 		}
 		l.Error(e.Match(INCLUDE_STATEMENT_MODULE_LOAD_FAILED))
-		return statements
+		return
 	}
 	l.including = append(l.including, include.Module.Value)
 	defer func() {
@@ -486,15 +501,14 @@ func (l *Linter) resolveFileInclusion(
 			Message:  err.Error(),
 		}
 		l.Error(e.Match(INCLUDE_STATEMENT_MODULE_LOAD_FAILED))
-		return statements
+		return
 	}
 
 	if isRoot {
-		statements = l.loadVCL(module.Name, module.Data)
+		fn(l.loadVCL(module.Name, module.Data))
 	} else {
-		statements = l.loadSnippetVCL(module.Name, module.Data)
+		fn(l.loadSnippetVCL(module.Name, module.Data))
 	}
-	return l.resolveIncludeStatements(statements, ctx, isRoot)
 }
 
 //nolint:gocognit,funlen
